@@ -16,7 +16,7 @@ META = {
                    "by {uninstall Ok or a tolerated error} and by `not running`; (4) add_node validates the requested ports against the "
                    "registry before the loop, pushes a NodeServiceData only on the Ok side of install, saves after every push, and numbers "
                    "new services after the highest recorded number (or never skips a number), so names/data dirs cannot repeat. "
-                   "Not decided: enumeration of operation histories × fault placements; registry reload equality (serde).",
+                   "Also: start() returns Ok only behind get_process_pid == Ok; upgrade replaces binary and definition only after stop() succeeded, records the new version only after install succeeded, and reports Upgraded/Forced only if the restart succeeded; check_port_availability collects node, metrics and RPC ports, walks a requested range inclusively and cannot return Ok once a requested port is taken. Not decided: enumeration of operation histories × fault placements; registry reload equality (serde).",
     "not_decided": ["exploration of histories and fault placements (a different technique)", "serde_json reload equality of the registry"],
 }
 
